@@ -157,3 +157,49 @@ prop(
     jobs=[{"test": "TestC14", "checks": 5000, "timeout": 300, "thorough": {"checks": 60000, "shards": 16, "timeout": 1500}}],
     floor={"quick": 500, "thorough": 10000},
 )
+
+prop(
+    "C11",
+    title="Queries and value-returning operations leave their operands unchanged",
+    level="exploration",
+    technique="property-based testing with before/after snapshots over a reflection-enumerated operation table (rapid) + generated concurrent programs under the Go race detector",
+    design_ref="DESIGN.md §5 C11",
+    rule=("(a) rapid draws a shared document (graph over five ids, every schema field populated or not by reflection, unsorted roots and "
+          "edge targets, persons with contacts, spare slice capacity); EVERY exported read-only/value-returning method of Document, NodeList, "
+          "Node, Edge, Person, ExternalReference, Metadata, Tool, DocumentType (enumerated by reflection; a method the table does not classify "
+          "fails the self test) is called on every reachable receiver with generated arguments (fresh, or parts of the shared document), plus "
+          "serialization in all seven registered formats; order-sensitive deterministic wire-byte snapshots of the document and of every "
+          "argument before = after. (b) programs of 2-8 goroutines x 3-10 such calls on one shared document in a -race binary. "
+          "Non-trivial = document with unsorted roots, unsorted edge targets or a person with contacts (a) / every distinct program (b)."),
+    assumptions=["the race detector reports an unsynchronised conflicting access pair whenever both accesses execute (happens-before based), interleavings are sampled, not enumerated"],
+    level_text=("(a) snapshot equality of every operand after every read-only public operation on generated operands; (b) no race report and "
+                "no runtime abort for generated concurrent programs of such operations on one shared document."),
+    level_note="trusts rapid, protobuf deterministic marshalling as snapshot, Go's race detector; schedules are sampled",
+    jobs=[
+        {"test": "TestC11a", "checks": 400, "timeout": 400, "thorough": {"checks": 5000, "shards": 10, "timeout": 1700}},
+        {"test": "TestC11b", "checks": 250, "race": True, "timeout": 400, "thorough": {"checks": 2500, "shards": 6, "timeout": 1700}},
+    ],
+    floor={"quick": 200, "thorough": 3000},
+)
+
+prop(
+    "C12",
+    title="Copies and combined results are independent values",
+    level="exploration",
+    technique="property-based testing: reflection-populated values, Go-level alias walk of all reachable memory, behavioural mutation of every leaf, call histories (rapid)",
+    design_ref="DESIGN.md §5 C12",
+    rule=("Copy: every message type of the schema that has a Copy method (found by reflection), all fields populated to depth 3, slices "
+          "re-allocated with spare capacity half of the time; Histories: 2-4 Union/Intersect/Copy calls over three operands (operands reused), "
+          "interleaved with in-place edits of results (leaf mutation, Add, RemoveNodes, Update/AddHash, appends). Non-trivial = source with more "
+          "than 12 leaves (Copy) / history in which an operand is used twice; distinct = digest of value / history and operands."),
+    assumptions=["independence is judged on protobuf field content (order-sensitive wire snapshot) and on Go memory reachable through exported fields"],
+    level_text=("copy equals source (reference key, and Equal where defined); the memory reachable from copy and source (pointer targets, map "
+                "headers, slice backing arrays incl. spare capacity) is disjoint; mutating every leaf of either side leaves the other side's "
+                "snapshot unchanged; the same between union/intersection results and both operands, and earlier results are unchanged by later calls."),
+    level_note="trusts rapid, Go reflection (alias walker in harness/hx/reflect.go) and protobuf marshalling as snapshot",
+    jobs=[
+        {"test": "TestC12Copy", "checks": 2500, "timeout": 300, "thorough": {"checks": 30000, "shards": 8, "timeout": 1500}},
+        {"test": "TestC12History", "checks": 1200, "timeout": 300, "thorough": {"checks": 15000, "shards": 8, "timeout": 1500}},
+    ],
+    floor={"quick": 300, "thorough": 5000},
+)
